@@ -7,7 +7,7 @@ HOOKS = {
     "add_only": True,
 }
 ENGINES = [
-    {"name": "kani", "path": "cargo kani (0.68.0, CBMC 6.11.0, CaDiCaL)", "serves_properties": ["C02", "C03", "C04", "C05", "C07", "C08", "C09", "C10", "C11", "C12", "C13", "C16", "C18"],
+    {"name": "kani", "path": "cargo kani (0.68.0, CBMC 6.11.0, CaDiCaL)", "serves_properties": ["C02", "C03", "C04", "C05", "C07", "C08", "C09", "C10", "C11", "C12", "C13", "C15", "C16", "C18"],
      "kind_free_text": "contract harnesses (assume pre / call real function text / assert post), loop-free over full symbolic domain"},
     {"name": "verus", "path": "verus 0.2026.09.13 (Z3)", "serves_properties": ["C02", "C03", "C04", "C05", "C07", "C08", "C16"],
      "kind_free_text": "lemma layer: unbounded induction over sequences/maps on the kernels the Kani contracts are stated in"},
@@ -25,7 +25,8 @@ CLAIMED = {
         "(SpecSet = ORSWOT kernels; ghost store = Storage contract), arbitrary unbounded set and store (havoc maps); bulk handlers bounded (batch <= 2)",
         "Proof for single set/delete requests: from ANY set and store that agree at the touched id (and a bystander), for any message and any storage outcome, they agree "
         "afterwards; applied to both or to neither. The ORSWOT contracts the handlers rely on (will_apply predicts insert/delete; kernels) are discharged on the real orswot.rs "
-        "in the same check. Bulk and purge handlers are bounded stand-ins (thorough tier), listed separately and not counted.",
+        "in the same check. Bulk and purge handlers are bounded stand-ins (bulk: thorough tier), listed separately and not counted. KNOWN FINDING D9: a bulk request carrying one id twice, "
+        "newer document first, leaves storage on the older document (obligation ac_bulk_dup_id, printed as KNOWN-FINDING).",
         "DESIGN.md section 4, C02",
         "Trusted: ghost store is the Storage contract; SpecSet/ORSWOT equivalence is the os_* obligations; async/await de-sugared (no cancellation); puppet plumbing unverified."),
     "C04": _c(
@@ -39,7 +40,8 @@ CLAIMED = {
         _CB + ": Kani contract on check_self_then_insert_to (arbitrary unbounded set) == the `lacks` kernel; bounded contract for the diff list shape; bounded contracts on the repair glue handle_removals / handle_modified sliced from poller.rs (recording actor mailbox and peer client); Verus lemmas: applying the "
         "difference leaves the second difference empty, one two-way exchange yields identical live ids and stamps",
         "Proof of the listing rule per item (sentence 1) for any set; Verus proof of the repair fixpoint and symmetry per key, lifted pointwise, under the stated acceptance "
-        "(window) hypothesis. The shape of the two lists over a whole peer state is a bounded stand-in (thorough tier).",
+        "(window) hypothesis. The shape of the two lists over a whole peer state is a bounded stand-in (thorough tier); the actor's on_diff reply == that difference, unchanged (bounded: peer "
+        "state <= 1 live + 1 tombstone), and the repair glue turns it into exactly the right messages (bounded: lists <= 3).",
         "DESIGN.md section 4, C05",
         "Window hypothesis => acceptance is a lemma; that every stamp in play is inside one window is the property's own hypothesis. The repair glue is checked for lists <= 3 (one fetch chunk); the surrounding poller loop (get_keyspace_diff, begin_keyspace_sync spawning the two tasks) is read, not verified."),
     "C08": _c(
@@ -61,7 +63,7 @@ CLAIMED = {
         technique=_CB + ": Kani/CBMC contract harnesses on new/pack/accessors/Ord/from_str of the real timestamp.rs; std integer parsers havocked by stubs so from_str is proved total for every parse outcome",
         text="Proof: pack/accessor/from_u64 round trips and the lexicographic order are discharged for all field values (all 2^64 pairs for the order); from_str is proved panic-free and field-exact for every outcome of the four integer parsers, and the real splitn runs on inputs with 0..5 fields.",
         design_ref="DESIGN.md section 4, C10",
-        note="Not covered: Display formatting (core::fmt) at full width and the rkyv archived form (assumed). Integer parsers are assumed panic-free (stubbed).",
+        note="Display formatting (core::fmt) cannot be taken at full width: print-then-parse is checked on four concrete boundary stamps with nothing stubbed (thorough tier, bounded). Not covered: the rkyv archived form (assumed). Integer parsers are assumed panic-free (stubbed) in the totality proof.",
     ),
     "C11": _c(
         _CB + ": Kani/CBMC contracts on run_clock, Clock::get_time and Clock::register_ts sliced from datacake-node/src/clock.rs (FIFO stand-in channel, arbitrary wall "
@@ -76,11 +78,13 @@ CLAIMED = {
         "DESIGN.md section 4, C12",
         "ASSUMED dependencies: rkyv (de)serialisation correctness (value equality end to end, Status round trip) and CRC-32's single-bit error detection. Archived sizes 1/8/24, alignment 1.", engine="kani"),
     "C13": _c(
-        _CB + " (bounded): Kani inductive-step contracts on ServerState::add_handlers/remove_handlers/get_handler sliced from server.rs, from an arbitrary registry state satisfying the invariant",
+        _CB + " (bounded for the registry, proof for the dispatch): Kani inductive-step contracts on ServerState::add_handlers/remove_handlers/get_handler sliced from server.rs, from an arbitrary registry "
+        "state satisfying the invariant; Kani contract on try_handle_request sliced from net/server.rs (registry linked by contract) for every request path",
         "Bounded contract checking: one add/remove step from ANY registry state satisfying the invariant within 3 services x 2 keys over 4 URIs, observed through get_handler for every URI; "
-        "an inductive step, hence every add/remove history inside that size.",
-        "DESIGN.md section 4, C13",
-        "Locks are exclusive cells; crate::hash injective on registered URIs; HTTP glue in net/server.rs read, not verified.", engine="kani"),
+        "an inductive step, hence every add/remove history inside that size (add_handlers: service and added key set concrete per harness, nine combinations). Proved (class P): the dispatch "
+        "glue serves a request exactly when the registry has a handler for the request's own path (any path <= 15 bytes, byte for byte), with that handler, once, and refuses it as unavailable otherwise.",
+        "DESIGN.md sections 4 (C13) and 9.11",
+        "Locks are exclusive cells; crate::hash injective on registered URIs; hyper connection handling and response framing (handle_connection / handle_message) read, not verified.", engine="kani"),
     "C03": _c(
         _CB + " (bounded for the code, proof for the algebra): Kani/CBMC contract on the verbatim OrSWotSet::merge (callee NodeVersions::merge linked by contract through #[kani::stub] and "
         "checked separately) == the per-key merge kernel for replicas with <= 1 key per side (possibly the same key) and arbitrary cut-offs; Verus: that kernel under the window hypothesis is the "
@@ -99,14 +103,26 @@ CLAIMED = {
         "DESIGN.md section 9.8 (C07)",
         "Keyspace names are opaque identifiers (String/Cow<str> stand-ins); Vec -> fixed-capacity vector with a stable insertion sort; 'acknowledged => in storage' is C02; convergence with peers (C01) not decided."),
     "C16": _c(
-        _CB + " (bounded for the delta function, proof for the fold): Kani/CBMC contract on watch_membership_changes sliced from datacake-node/src/lib.rs for a transition between two symbolic "
-        "snapshots, plus a Verus induction that applying every delta yields the last snapshot",
-        "Bounded contract checking: from an ARBITRARY previous snapshot over the local node and one other node x 2 addresses x 2 data centres (all symbolic), joined/left are exact (left as members of the previous snapshot, with the "
-        "address they had), departed addresses are disconnected, the selector gets exactly the current layout, and a consumer applying the events holds exactly the other live nodes. Proved "
+        _CB + " (bounded for the delta function, proof for the fold): Kani/CBMC contract on watch_membership_changes sliced from datacake-node/src/lib.rs for a transition between two "
+        "snapshots (who is at which address concrete per harness, data centres symbolic), plus a Verus induction that applying every delta yields the last snapshot",
+        "Bounded contract checking: for 52 transitions over the local node and two other nodes x 3 shared addresses (previous snapshot canonical up to renaming; joins, leaves, address changes, "
+        "swaps, an address taken over by another node id) x 2 data centres (symbolic): joined/left are exact (left as members of the previous snapshot, with the address they had), departed unused "
+        "addresses are disconnected and nothing else is, the selector gets exactly the current layout, and a consumer applying the events holds exactly the other live nodes. Proved "
         "(unbounded): the fold of all deltas equals the last snapshot.",
-        "DESIGN.md section 9.8 (C16)",
+        "DESIGN.md sections 9.8 and 9.11 (C16)",
         "KNOWN LIMIT (D6): deltas travel on a latest-value watch channel; a subscriber that attaches late or reads slowly sees a subsequence of deltas -- that part of the property ('no matter how "
         "slowly it reads', 'joined before the subscription') is NOT established by these obligations and is recorded as a known finding. Names and addresses are opaque identifiers."),
+    "C15": _c(
+        _CB + " (bounded): Kani/CBMC contracts on DCAwareSelector::select_nodes, select_n_nodes and NodeCycler sliced from datacake-node/src/nodes_selector.rs -- layout shape concrete per harness, "
+        "consistency level, round-robin cursors (= every history of earlier selections) and the random data-centre choice symbolic -- and on the Op::SetNodes arm of the selector actor loop (block slice)",
+        "Bounded contract checking: for every layout with <= 2 data centres x <= 3 nodes and every choice of the local node (42 shapes), every level, every cursor vector and every outcome of the "
+        "random choice: a successful selection holds only current members other than the local node, no duplicates, at least the number the level requires (exactly n for One/Two/Three, everybody "
+        "else for All, per-data-centre majorities for EachQuorum); NotEnoughNodes only when fewer other nodes exist than required; the cursors left behind are again in the range the contract starts "
+        "from (inductive step over selection histories). SetNodes: the layout afterwards is exactly the update (a data centre that left is gone), cursors fresh, cache emptied. Two defects found by "
+        "these obligations were repaired (fix: commits 9dd442d, a1c1e4d).",
+        "DESIGN.md section 9.12 (C15)",
+        "NOT decided: layouts with three or more data centres (every shape tried ran out of memory: the random choice makes the vector of (&name, &mut cycler) pairs symbolic); the 2 s selection cache "
+        "and the GetNodes arm (read); membership -> SetNodes is C16's set_nodes clause. rand::choose_multiple -> arbitrary sub-selection; SocketAddr opaque; SmallVec/Vec -> fixed-capacity vector.", engine="kani"),
     "C18": _c(
         _CB + ": rely/guarantee reduction -- one sequential Kani contract on get_or_create_keyspace/add_state sliced from group.rs with an arbitrary (havoc) group map and environment steps at "
         "both former await points",
@@ -117,10 +133,6 @@ CLAIMED = {
 }
 
 NOT_APPLICABLE = {
-    "C15": "DCAwareSelector::select_nodes / select_n_nodes were sliced and put under a bounded contract (unit harness/selector, kept in the tree) but could not be decided: with every stand-in that "
-           "helped elsewhere (opaque addresses, borrowed-only names, fixed-capacity vectors) select_n_nodes on 2 data centres x 2 nodes yields 16-20 M SAT variables and CBMC runs out of memory at 24 GB, "
-           "the quorum levels need 3.7 M symbolic-execution steps (vectors of (&name, &mut cycler) pairs and of filtered iterators); Verus rejects the iterator adapters; defect D7 found by reading is "
-           "described in DESIGN.md sections 5 and 9.10, not fixed and not raised by any check",
     "C01": "whole-cluster convergence over all histories, delivery schedules and repair orders: a multi-process history property with no function boundary to carry a postcondition; its single-node ingredients are decided under C02/C04/C05/C07/C08",
     "C06": "spans issuer, transport and N remote nodes (eventual, cross-process); contracts decide only its local ingredients (selection count under C15, write-before-reply under C02)",
     "C14": "schedule/fault quantifier over hyper/h2/tokio/turmoil connection glue; Kani has no concurrency support and no function in /repo owns the behaviour",
